@@ -66,6 +66,21 @@ CHECKS["C06"] = dict(
    note="Not a continuum sweep: about 105 (magnitude, axis) lattice points + 40 dyadic vectors; raw SERIES coefficients are compared with mpmath only as SPEC-DRIFT information.",
 )
 
+CHECKS["C08"] = dict(
+   technique="TLA+ spec Strapdown.tla (INS state as polynomial vectors in the symbolic scalar mu; closed-form flow S1, S2 proven by TLC to satisfy the ODE characterisation; semigroup law Tick;Tick = Tick2 proven as a polynomial identity; multi-step behaviours) model-checked by TLC; every step of every behaviour replayed into strapdown_ins_propagate",
+   category="model_checking",
+   text="TLC explores behaviours of up to 3 consecutive propagation steps (same angular rate, changing specific force and gravity) from 4 initial states and 21 rotation-per-step elements (zero, 1e-3 rad, both sides of the small-angle switch, 90/120/180 degrees, beyond pi), proving on the spec that (S1,S2) solve S2[phi]x = S1 - I, S1[phi]x = R - I and that two unit steps equal one double step. For every visited step the real CasADi function must return the exact post-state (position, velocity as polynomials in mu evaluated by the harness, attitude as exact rotation, unit norm) for dt = T, under time rescaling dt = T/100, composed 0.3T + 0.7T on the code itself, and dt = 0 must be the identity.",
+   design_ref="6/C08",
+   note="Steps with different non-parallel angular rates are composed code-vs-code only. Trusted: embedding double mu (mpmath self-test).",
+)
+CHECKS["C10"] = dict(
+   technique="TLA+ spec FilterNum.tla (exact rational RK4 oracles, LDL/UDU recursions, unique lower-triangular sqrt-covariance derivative, sqrt measurement update with Joseph form and PSD via exact pivots) model-checked by TLC; every state replayed into cyecca.util functions",
+   category="model_checking",
+   text="TLC proves on every state (n <= 3, m <= 2, integer entries) the laws that pin each expectation: LDL^T = P, UDU^T = P with unit-triangular factors and positive pivots; W' lower triangular with W'W^T + WW'^T = FP + PF^T + Q; S = HPH^T + RsRs^T symmetric, KS = PH^T, P - P+ = KSK^T, Joseph form, P+ PSD, trace(P+) <= trace(P); RK4 exact on cubics in time, stability polynomial on y' = lambda y and a 2x2 linear system. Each state is replayed into rk4, sqrt_covariance_predict, sqrt_correct, ldl/udu and compared entry-wise where unique (1e-9) and through the defining identities otherwise; a harness-generated identity-residual family with exact integer right-hand sides extends this to n = 4..6 and the estimator's sparse shapes.",
+   design_ref="6/C10",
+   note="n > 3 only through identity residuals; RK4 exactness decided on fields where every order-4 four-stage method is exact plus an order test on one nonlinear field. Not decided: values between lattice points.",
+)
+
 NOT_YET = {}
 
 ALL = [f"C{i:02d}" for i in range(1, 21)]
